@@ -1,7 +1,7 @@
 """Seeded breaking changes (written by independent sub-agents that saw only the property
 text): import, confirm and run the checks against them.
 
-  python3 harness/seeded.py import <PROP> <srcdir>   # <srcdir>/{a,b}.diff, _demo.py, _meta.json
+  python3 harness/seeded.py import <PROP> <srcdir> [round]   # <srcdir>/{a..h}.diff, _demo.py, _meta.json
   python3 harness/seeded.py run [<id> ...]           # confirm + run checks, update meta.json
 
 Each change lives in /verif/seeded/<id>/ (patch.diff, demo.py, meta.json).  Nothing is
@@ -27,8 +27,8 @@ RELATED = {          # checks to try when the target property's own check misses
 }
 
 
-def do_import(prop, src):
-    for v in ('a', 'b'):
+def do_import(prop, src, rnd=None):
+    for v in 'abcdefgh':
         if not os.path.exists(os.path.join(src, v + '.diff')):
             continue
         d = os.path.join(SEEDED, '%s-%s' % (prop, v))
@@ -38,6 +38,8 @@ def do_import(prop, src):
         meta = json.load(open(os.path.join(src, v + '_meta.json')))
         meta['id'] = '%s-%s' % (prop, v)
         meta['breaks'] = prop
+        if rnd:
+            meta['round'] = int(rnd)
         json.dump(meta, open(os.path.join(d, 'meta.json'), 'w'), indent=1)
         print('imported', d)
 
@@ -119,7 +121,7 @@ def do_run(ids):
 
 if __name__ == '__main__':
     if len(sys.argv) >= 4 and sys.argv[1] == 'import':
-        do_import(sys.argv[2], sys.argv[3])
+        do_import(sys.argv[2], sys.argv[3], sys.argv[4] if len(sys.argv) > 4 else None)
     elif len(sys.argv) >= 2 and sys.argv[1] == 'run':
         do_run(sys.argv[2:])
     else:
